@@ -8,11 +8,13 @@ import (
 	"crypto/tls"
 	"crypto/x509"
 	"crypto/x509/pkix"
+	"fmt"
 	"io"
 	"math/big"
 	"net"
 	"sync"
 	"sync/atomic"
+	"syscall"
 	"time"
 )
 
@@ -71,7 +73,41 @@ func (p *Peer) Close() {
 }
 
 // FreeAddr returns a loopback address on which nothing listens (connection refused).
+// The port stays RESERVED: a socket is bound to it but never listens, so that no other listener of this
+// process or of another one (a proxy under test, a peer) can be given the same port while the case runs —
+// with listen-and-close a proxy was once handed the "refused" port and dialled itself.
 func FreeAddr() string {
+	fd, err := syscall.Socket(syscall.AF_INET, syscall.SOCK_STREAM, 0)
+	if err != nil {
+		return freeAddrFallback()
+	}
+	sa := &syscall.SockaddrInet4{Port: 0, Addr: [4]byte{127, 0, 0, 1}}
+	if err := syscall.Bind(fd, sa); err != nil {
+		syscall.Close(fd)
+		return freeAddrFallback()
+	}
+	got, err := syscall.Getsockname(fd)
+	in4, ok := got.(*syscall.SockaddrInet4)
+	if err != nil || !ok {
+		syscall.Close(fd)
+		return freeAddrFallback()
+	}
+	reservedMu.Lock()
+	reserved = append(reserved, fd)
+	if len(reserved) > 3000 { // keep the number of descriptors bounded: release the oldest reservation
+		syscall.Close(reserved[0])
+		reserved = reserved[1:]
+	}
+	reservedMu.Unlock()
+	return fmt.Sprintf("127.0.0.1:%d", in4.Port)
+}
+
+var (
+	reservedMu sync.Mutex
+	reserved   []int
+)
+
+func freeAddrFallback() string {
 	l, err := net.Listen("tcp", "127.0.0.1:0")
 	if err != nil {
 		return "127.0.0.1:1"
